@@ -151,6 +151,14 @@ def all_patterns(n):
 # ------------------------------------------------------------------ semantic search on the REAL code
 
 
+def reversed_specials():
+    """Small graphs whose edges are stored high-to-low or in mixed orientation (`add_edge(2, 1)`): code that
+    canonicalises an edge by `i < j` on the STORED pair silently skips these."""
+    return [(2, [(1, 0)]), (3, [(1, 0), (2, 1)]), (3, [(0, 1), (2, 1)]), (4, [(0, 1), (2, 1), (3, 2)]), (4, [(1, 0), (2, 1), (3, 2)]),
+            (3, [(1, 0), (2, 1), (0, 2)]), (4, [(1, 0), (2, 0), (3, 0)]), (4, [(1, 0), (2, 1), (3, 2), (0, 3)]),
+            (4, [(3, 2), (1, 0)])]
+
+
 def small_graphs(rng, count, nmax=5, allow_parallel=True):
     """Deterministic family of small graphs: special shapes first, then random ones."""
     out = [(1, []), (2, []), (2, [(0, 1)]), (2, [(0, 1), (1, 0)]), (3, [(0, 1), (1, 2)]), (3, [(0, 1), (1, 2), (2, 0)]),
